@@ -34,7 +34,8 @@ func c01Run(e ast.Expr) (py.Object, error) {
 	for i, n := range c01Names {
 		globals[n] = &vm.VTok{ID: i}
 	}
-	frame := &py.Frame{Code: c.Code, Globals: globals, Locals: globals, Builtins: py.StringDict{}, Stack: make([]py.Object, 0, c.Code.Stacksize)}
+	builtins := py.StringDict{}
+	frame := &py.Frame{Context: vm.VNewCtx(builtins), Code: c.Code, Globals: globals, Locals: globals, Builtins: builtins, Stack: make([]py.Object, 0, c.Code.Stacksize)}
 	return vm.RunFrame(frame)
 }
 
@@ -42,6 +43,43 @@ func c01Run(e ast.Expr) (py.Object, error) {
 type c01Oracle struct {
 	log  []string
 	next int
+	env  map[string]string // parameters of the lambda being evaluated
+}
+
+func (o *c01Oracle) evalList(es []ast.Expr) string {
+	s := ""
+	for _, e := range es {
+		s += o.eval(e) + ","
+	}
+	return s
+}
+
+// c01Deep renders a result that may be a display of tokens
+func c01Deep(v py.Object) string {
+	switch x := v.(type) {
+	case py.Tuple:
+		s := "("
+		for _, e := range x {
+			s += c01Deep(e) + ","
+		}
+		return s + ")"
+	case *py.List:
+		s := "["
+		for _, e := range x.Items {
+			s += c01Deep(e) + ","
+		}
+		return s + "]"
+	case py.StringDict:
+		// keys k1 < k2 < ...: rendered in that order
+		s := "{"
+		for _, k := range []string{"k1", "k2", "k3"} {
+			if e, ok := x[k]; ok {
+				s += k + ":" + c01Deep(e) + ","
+			}
+		}
+		return s + "}"
+	}
+	return vm.VName(v)
 }
 
 func (o *c01Oracle) fresh() string {
@@ -67,6 +105,9 @@ var c01CmpName = map[ast.CmpOp]string{ast.Eq: "eq", ast.NotEq: "ne", ast.Lt: "lt
 func (o *c01Oracle) eval(e ast.Expr) string {
 	switch x := e.(type) {
 	case *ast.Name:
+		if v, ok := o.env[string(x.Id)]; ok {
+			return v
+		}
 		for i, n := range c01Names {
 			if string(x.Id) == n {
 				return "t" + strconv.Itoa(i)
@@ -109,6 +150,78 @@ func (o *c01Oracle) eval(e ast.Expr) string {
 			return o.eval(x.Body)
 		}
 		return o.eval(x.Orelse)
+	case *ast.Num:
+		return "i" + strconv.Itoa(int(x.N.(py.Int)))
+	case *ast.Str:
+		return "s:" + string(x.S)
+	case *ast.Tuple:
+		return "(" + o.evalList(x.Elts) + ")"
+	case *ast.List:
+		return "[" + o.evalList(x.Elts) + "]"
+	case *ast.Dict:
+		// keys are string constants; the values are evaluated left to right
+		s := "{"
+		for i, k := range x.Keys {
+			s += string(k.(*ast.Str).S) + ":" + o.eval(x.Values[i]) + ","
+		}
+		return s + "}"
+	case *ast.Subscript:
+		v := o.eval(x.Value)
+		k := o.eval(x.Slice.(*ast.Index).Value)
+		o.log = append(o.log, "getitem("+v+","+k+")")
+		return o.fresh()
+	case *ast.Attribute:
+		v := o.eval(x.Value)
+		o.log = append(o.log, "getattr("+v+",s:"+string(x.Attr)+")")
+		return o.fresh()
+	case *ast.Call:
+		// the callee, then the positional arguments, the keyword values and the star argument,
+		// each once and in that order; then the call
+		var lam *ast.Lambda
+		var f string
+		if l, ok := x.Func.(*ast.Lambda); ok {
+			lam = l
+		} else {
+			f = o.eval(x.Func)
+		}
+		var pos []string
+		for _, a := range x.Args {
+			pos = append(pos, o.eval(a))
+		}
+		kw := map[string]string{}
+		for _, k := range x.Keywords {
+			kw[string(k.Arg)] = o.eval(k.Value)
+		}
+		if x.Starargs != nil {
+			for _, a := range x.Starargs.(*ast.Tuple).Elts {
+				pos = append(pos, o.eval(a))
+			}
+		}
+		if lam == nil {
+			e := "call(" + f + ",i" + strconv.Itoa(len(pos)) + ",i" + strconv.Itoa(len(kw))
+			for _, a := range pos {
+				if a != "" && (a[0] == '(' || a[0] == '[' || a[0] == '{') {
+					a = "?" // the tokens' call log does not look into containers
+				}
+				e += "," + a
+			}
+			o.log = append(o.log, e+")")
+			return o.fresh()
+		}
+		// a lambda: bind the parameters (positionally, then by keyword), evaluate the body
+		saved := o.env
+		env := map[string]string{}
+		for i, p := range lam.Args.Args {
+			if i < len(pos) {
+				env[string(p.Arg)] = pos[i]
+			} else {
+				env[string(p.Arg)] = kw[string(p.Arg)]
+			}
+		}
+		o.env = env
+		r := o.eval(lam.Body)
+		o.env = saved
+		return r
 	case *ast.Compare:
 		left := o.eval(x.Left)
 		for i, op := range x.Ops {
@@ -160,7 +273,7 @@ func c01Check(e ast.Expr) {
 	for i := range o.log {
 		verifAssert(log[i] == o.log[i], "operations happen in Python's order with Python's operands")
 	}
-	verifAssert(vm.VName(got) == want, "the value of the expression")
+	verifAssert(c01Deep(got) == want, "the value of the expression")
 }
 
 var c01BinOps = []ast.OperatorNumber{ast.Add, ast.Sub, ast.Mult, ast.Div, ast.Modulo, ast.Pow, ast.LShift, ast.RShift, ast.BitOr, ast.BitXor, ast.BitAnd, ast.FloorDiv}
@@ -415,4 +528,67 @@ func VerifC01PipeAssign() {
 	for i := range o.log {
 		verifAssert(log[i] == o.log[i], "right-hand side first, then target sub-expressions left to right, each once")
 	}
+}
+
+// calls, subscripts, attributes, displays and lambdas: every operand is a
+// unary operation on a token (so that its evaluation is logged); the shapes are
+// symbolic choices, the unary operators too.
+//
+//verif:property C01
+//verif:runinit github.com/go-python/gpython/vm.init#1 github.com/go-python/gpython/vm.init#2
+//verif:expect ran
+//verif:maxpaths 20000 200000
+func VerifC01PipeCallsDisplays() {
+	uops := []ast.UnaryOpNumber{ast.USub, ast.UAdd, ast.Invert}
+	u := func(i int, name string) ast.Expr {
+		return &ast.UnaryOp{Op: uops[verifChoice(name, verifBound(2, 3))], Operand: c01Name(i)}
+	}
+	A, B, C := u(0, "ua"), u(1, "ub"), u(2, "uc")
+	f := c01Name(3)
+	str := func(s string) ast.Expr { return &ast.Str{S: py.String(s)} }
+	tuple := func(es ...ast.Expr) ast.Expr { return &ast.Tuple{Elts: es, Ctx: ast.Load} }
+	lam := func(body ast.Expr, params ...string) *ast.Lambda {
+		args := &ast.Arguments{}
+		for _, p := range params {
+			args.Args = append(args.Args, &ast.Arg{Arg: ast.Identifier(p)})
+		}
+		return &ast.Lambda{Args: args, Body: body}
+	}
+	x, y := &ast.Name{Id: "x", Ctx: ast.Load}, &ast.Name{Id: "y", Ctx: ast.Load}
+	var e ast.Expr
+	switch verifChoice("shape", 12) {
+	case 0:
+		e = &ast.Call{Func: f, Args: []ast.Expr{A, B, C}}
+	case 1:
+		e = &ast.Call{Func: f, Args: []ast.Expr{A}, Starargs: tuple(B, C)}
+	case 2:
+		e = &ast.Call{Func: f, Args: []ast.Expr{&ast.Call{Func: f, Args: []ast.Expr{A}}, B}}
+	case 3:
+		e = &ast.Subscript{Value: A, Slice: &ast.Index{Value: B}, Ctx: ast.Load}
+	case 4:
+		e = &ast.Attribute{Value: &ast.Subscript{Value: A, Slice: &ast.Index{Value: B}, Ctx: ast.Load}, Attr: "attr", Ctx: ast.Load}
+	case 5:
+		e = tuple(A, B, C)
+	case 6:
+		e = &ast.List{Elts: []ast.Expr{A, tuple(B), C}, Ctx: ast.Load}
+	case 7:
+		e = &ast.Dict{Keys: []ast.Expr{str("k1"), str("k2"), str("k3")}, Values: []ast.Expr{A, B, C}}
+	case 8:
+		// (lambda x, y: x - y)(A, B): positional binding, then the body
+		e = &ast.Call{Func: lam(&ast.BinOp{Left: x, Op: ast.Sub, Right: y}, "x", "y"), Args: []ast.Expr{A, B}}
+	case 9:
+		// (lambda x, y: x - y)(A, y=B) and (lambda x, y: x - y)(y=A, x=B)
+		if verifChoice("kwboth", 2) == 0 {
+			e = &ast.Call{Func: lam(&ast.BinOp{Left: x, Op: ast.Sub, Right: y}, "x", "y"), Args: []ast.Expr{A}, Keywords: []*ast.Keyword{{Arg: "y", Value: B}}}
+		} else {
+			e = &ast.Call{Func: lam(&ast.BinOp{Left: x, Op: ast.Sub, Right: y}, "x", "y"), Keywords: []*ast.Keyword{{Arg: "y", Value: A}, {Arg: "x", Value: B}}}
+		}
+	case 10:
+		// a conditional whose branches are calls
+		e = &ast.IfExp{Test: A, Body: &ast.Call{Func: f, Args: []ast.Expr{B}}, Orelse: &ast.Call{Func: f, Args: []ast.Expr{C}}}
+	default:
+		// a display inside a call inside a subscript: f((A, B))[C]
+		e = &ast.Subscript{Value: &ast.Call{Func: f, Args: []ast.Expr{tuple(A, B)}}, Slice: &ast.Index{Value: C}, Ctx: ast.Load}
+	}
+	c01Check(e)
 }
